@@ -505,6 +505,15 @@ Section Quiet.
     then map_out (fun o => let o' := os_add_level o d in os_push_newline_int (oc_fmt c) o' (os_level o')) st
     else st.
 
+  (* after the value: the line break before the closing tag only for a childless element *)
+  Definition h_inner_close (inner : bool) (ch : list anode) (st : fstate) : fstate :=
+    if inner
+    then match ch with
+         | [] => map_out (fun o => let o' := os_add_level o (-1) in os_push_newline_int (oc_fmt c) o' (os_level o')) st
+         | _ => map_out (fun o => os_add_level o (-1)) st
+         end
+    else st.
+
   Definition h_plain (nm : str) (node : anode) (st : fstate) : fstate :=
     let st :=
       match an_value node with
@@ -512,7 +521,7 @@ Section Quiet.
           let inner := existsb has_newline value || starts_with_block_tag c value in
           let st := h_inner inner 1 st in
           let st := push_tokens c value st in
-          h_inner inner (-1) st
+          h_inner_close inner (an_children node) st
       | _ => st
       end in
     let st := h_next node O (an_children node) st in
@@ -597,6 +606,12 @@ Section Quiet.
   Lemma Q_h_inner T b d st : Q T st -> Q T (h_inner b d st).
   Proof. intros H. unfold h_inner. destruct b; [apply Q_level_newline|]; exact H. Qed.
 
+  Lemma Q_h_inner_close T b ch st : Q T st -> Q T (h_inner_close b ch st).
+  Proof.
+    intros H. unfold h_inner_close. destruct b; [|exact H].
+    destruct ch; [apply Q_level_newline|apply Q_map_level]; exact H.
+  Qed.
+
   Lemma h_next_spec node : forall l i st T, Forall elem_ev l -> Q T st -> Q (T ++ kids_tags l) (h_next node i l st).
   Proof.
     induction l as [|ch r IH]; intros i st T HF H.
@@ -657,7 +672,7 @@ Section Quiet.
     match goal with |- context [h_next node 0 (an_children node) ?x] => set (st1 := x) end.
     assert (H1 : Q T st1).
     { unfold st1. destruct (an_value node) as [[|t0 v]|]; try exact H.
-      apply Q_h_inner. apply Q_push_tokens; [exact Hv|]. apply Q_h_inner, H. }
+      apply Q_h_inner_close. apply Q_push_tokens; [exact Hv|]. apply Q_h_inner, H. }
     pose proof (h_next_spec node (an_children node) 0 st1 T HF H1) as H2.
     destruct (negb (truthy_l (an_value node)) && match an_children node with [] => true | _ => false end); [|exact H2].
     apply Q_h_inner. apply Q_push_tokens; [reflexivity|]. apply Q_h_inner, H2.
